@@ -145,7 +145,9 @@ def o_split_bars(inp):
     start = 0
     cur_sig, cur_key = (4, 4), None
     nb = len(tb[0])
+    bar_starts = []
     for k in range(nb):
+        bar_starts.append(start)
         for (t, v) in ts:
             if t <= start:
                 cur_sig = v
@@ -187,6 +189,12 @@ def o_split_bars(inp):
             if a != b_:
                 fails.append(("sound-exact", f"track {ti}: {a} vs {b_}"))
         else:
+            # "only boundary-cut fragments may shrink": a note that no bar line cuts must come back with its onset and its end
+            lines = set(bar_starts) | {end}
+            got = {(c_, p_, on_, off_) for (c_, p_, on_, off_, _) in notes_of(laid)}
+            for (c_, p_, on_, off_, _) in notes_of(src):
+                if on_ < off_ and not any(on_ < x < off_ for x in lines) and (c_, p_, on_, off_) not in got:
+                    fails.append(("shrink-uncut", f"track {ti}: note {(c_, p_, on_, off_)} is cut by no bar line but does not come back unchanged"))
             # subset: every sounding interval of the bars lies inside an original one
             for key, ivs in b_.items():
                 for (s_, e_) in ivs:
@@ -251,12 +259,25 @@ def setup(ctx):
         return two_changes_in_one_bar(ts, ks)
     ctx.kf_predicates["D23"] = kf_d23
 
+    def kf_d26(f):
+        # re-quantisation on: some note that no bar line cuts has a length that is not one of the default note values (data of the finding)
+        if f["clause"] != "shrink-uncut" or not f["input"]["requant"]:
+            return False
+        ts = [[tuple(m) for m in t] for t in f["input"]["tracks"]]
+        return any((off - on) not in _allowed for t in ts for (_, _, on, off, _) in notes_of(rel_timed(t)[0]))
+    import json as _json
+    import os as _os
+    with open(_os.path.join(_os.path.dirname(_os.path.dirname(_os.path.dirname(_os.path.abspath(__file__)))), "known_findings.json")) as _f:
+        _allowed = set(next(x for x in _json.load(_f)["findings"] if x["id"] == "D26")["default_note_values"])
+    ctx.kf_predicates["D26"] = kf_d26
+
 
 def generate(ctx):
     rng = ctx.rng
     ctx.check("split_bars", D18B_EXAMPLE)      # the recorded instances of the known findings
     ctx.check("split_bars", D18C_EXAMPLE)
     ctx.check("split_bars", D23_EXAMPLE)
+    ctx.check("split_bars", {"requant": True, "tracks": [[G.pm(ON, 0, None, note=60, vel=64), G.pm(WAIT, 0, 10), G.pm(OFF, 0, None, note=60), G.pm(WAIT, 0, 86)]]})   # D26
     for i in range(ctx.n(120, 3000)):
         piece = G.gen_piece(rng, key_changes=True, unequal=rng.random() < 0.5, tail_ok=True, values=[6, 12, 24, 36, 48, 96, 5])
         if rng.random() < 0.35:
